@@ -1,0 +1,21 @@
+//go:build verif
+
+package core
+
+// VerifC12SetBehavior records the filesystem behaviours that Scan will use for
+// roots on the given device instead of probing them (it fills the package's
+// behaviour cache, exactly as a probe-file based probe would).
+func VerifC12SetBehavior(deviceID uint64, preservesExecutability, decomposesUnicode bool) {
+	behaviorCache.Lock()
+	behaviorCache.preservesExecutability[deviceID] = preservesExecutability
+	behaviorCache.decomposesUnicode[deviceID] = decomposesUnicode
+	behaviorCache.Unlock()
+}
+
+// VerifC12ClearBehavior removes the recorded behaviours of a device.
+func VerifC12ClearBehavior(deviceID uint64) {
+	behaviorCache.Lock()
+	delete(behaviorCache.preservesExecutability, deviceID)
+	delete(behaviorCache.decomposesUnicode, deviceID)
+	behaviorCache.Unlock()
+}
